@@ -28,6 +28,48 @@ def sh(cmd, cwd, env=None, timeout=3600):
     return subprocess.run(cmd, cwd=cwd, env=env, capture_output=True, text=True, timeout=timeout)
 
 
+def run_benign(name, all_checks):
+    """a property-preserving change: tests pass, its demo passes with and without it, and the
+    property's check must stay QUIET (any VIOLATION is a false alarm of the harness)"""
+    d = os.path.join(SEEDED, 'benign', name)
+    meta = json.load(open(os.path.join(d, 'meta.json')))
+    pid = meta['property']
+    tmp = tempfile.mkdtemp(prefix='pelbenign_')
+    out = {'name': 'benign/' + name, 'property': pid}
+    try:
+        dst = os.path.join(tmp, 'repo')
+        shutil.copytree('/repo', dst, ignore=shutil.ignore_patterns('.git', '__pycache__', '*.egg-info'))
+        env = dict(os.environ, PYTHONPATH=os.path.join(dst, 'modules'), PYTHONDONTWRITEBYTECODE='1')
+        demo = os.path.join(dst, 'demo_seed.py')
+        shutil.copy(os.path.join(d, 'demo.py'), demo)
+        p = sh([PY, demo], dst, env)
+        out['demo_without'] = 'pass' if p.returncode == 0 else 'FAIL(%d)' % p.returncode
+        p = sh(['patch', '-p1', '--no-backup-if-mismatch', '-i', os.path.join(d, 'patch.diff')], dst)
+        if p.returncode != 0:
+            out['error'] = 'patch does not apply: ' + (p.stdout + p.stderr)[-300:]
+            return out
+        p = sh([PY, '-m', 'pytest', '-q', '-p', 'no:cacheprovider'], dst, env)
+        out['tests'] = 'pass' if p.returncode == 0 else 'FAIL'
+        p = sh([PY, demo], dst, env)
+        out['demo_with'] = 'pass' if p.returncode == 0 else 'FAILS'
+        pids = [pid]
+        if all_checks:
+            man = json.load(open(os.path.join(VERIF, 'MANIFEST.json')))
+            pids = [pid] + [c['property_id'] for c in man['checks'] if c['property_id'] != pid]
+        alarms = []
+        for q in pids:
+            cenv = dict(os.environ, VERIF_REPO=dst, VERIF_EVIDENCE_DIR=os.path.join(tmp, 'ev'),
+                        VERIF_REPLAY_DIR=os.path.join(tmp, 'rp'))
+            p = sh([os.path.join(VERIF, 'check'), q, 'quick'], VERIF, cenv)
+            if p.returncode != 0:
+                detail = [l.strip() for l in p.stdout.splitlines() if l.startswith('  ')][:2]
+                alarms.append((q, 'exit %d: %s %s' % (p.returncode, ' | '.join(detail)[:300], p.stderr.strip()[-200:])))
+        out['alarms'] = alarms
+        return out
+    finally:
+        shutil.rmtree(tmp, ignore_errors=True)
+
+
 def run_seed(name, all_checks, confirm_only):
     d = os.path.join(SEEDED, name)
     meta = json.load(open(os.path.join(d, 'meta.json')))
@@ -80,8 +122,25 @@ def main():
     args = sys.argv[1:]
     all_checks = '--all' in args
     confirm_only = '--confirm-only' in args
+    if '--benign' in args:
+        bdir = os.path.join(SEEDED, 'benign')
+        names = [a for a in args if not a.startswith('--')] or sorted(os.listdir(bdir))
+        with ThreadPoolExecutor(max_workers=2) as ex:
+            results = list(ex.map(lambda n: run_benign(n, all_checks), names))
+        bad = 0
+        for r in results:
+            print('%-28s %s tests=%s demo(without/with)=%s/%s' % (r['name'], r['property'], r.get('tests'),
+                                                                  r.get('demo_without'), r.get('demo_with')))
+            if 'error' in r:
+                print('    ERROR', r['error'])
+            for q, detail in r.get('alarms', []):
+                bad += 1
+                print('    FALSE ALARM from %s: %s' % (q, detail))
+            if not r.get('alarms') and 'error' not in r:
+                print('    quiet')
+        return 1 if bad else 0
     names = [a for a in args if not a.startswith('--')] or sorted(
-        n for n in os.listdir(SEEDED) if os.path.isdir(os.path.join(SEEDED, n)))
+        n for n in os.listdir(SEEDED) if os.path.isdir(os.path.join(SEEDED, n)) and n != 'benign')
     with ThreadPoolExecutor(max_workers=2) as ex:
         results = list(ex.map(lambda n: run_seed(n, all_checks, confirm_only), names))
     for r in results:
